@@ -464,6 +464,11 @@ pub async fn cases(w: &mut World, t: &Twin) -> Vec<Case> {
             let e = marginfi::instructions::StakedSettingsEditConfig { oracle: None, asset_weight_init: None, asset_weight_maint: None, deposit_limit: Some(u64::MAX - 7), total_asset_value_init_limit: None, oracle_max_age: None, risk_tier: None };
             v.push(Case { name: "edit_staked_settings".into(), ixs: vec![ix::edit_staked_settings(g0k, s.pubkey(), e)], target: 0, signer_key: Some(s.pubkey()), signers: vec![s], entitled: vec!["admin"], subs: vec![(0, "group->foreign group".into(), g1k), (2, "staked settings->foreign group's settings".into(), ix::staked_settings_key(&g1k))] });
         }
+        {
+            let s = role("admin");
+            let dest = w.users[t.user].kp.pubkey();
+            v.push(Case { name: "update_fees_destination".into(), ixs: vec![ix::update_fees_destination(g0k, s.pubkey(), b0, dest)], target: 0, signer_key: Some(s.pubkey()), signers: vec![s], entitled: vec!["admin"], subs: bank_admin_subs(0, 1) });
+        }
         let s = role("risk");
         v.push(Case { name: "force_tokenless_repay_complete".into(), ixs: vec![ix::force_tokenless_complete(g0k, s.pubkey(), a0)], target: 0, signer_key: Some(s.pubkey()), signers: vec![s], entitled: vec!["risk"], subs: bank_admin_subs(0, 2) });
         let s = role("admin");
